@@ -121,7 +121,7 @@ def compile_bin(name, srcs, variant, ref=False, extra=None, libs=None, link_lib=
         refd = build_ref()
         srcs = srcs + [os.path.join(ROOT, 'ref/refshim.cc')]
     hdrs = sorted(glob.glob(os.path.join(REPO, 'bxdecay0/*.h')) + glob.glob(os.path.join(ROOT, 'engine/*.hpp'))
-                  + glob.glob(os.path.join(ROOT, 'checks/*.hpp')) + glob.glob(os.path.join(ROOT, 'ref/*.hpp'))
+                  + glob.glob(os.path.join(ROOT, 'checks/*.hpp')) + glob.glob(os.path.join(ROOT, 'fuzz/*.hpp')) + glob.glob(os.path.join(ROOT, 'ref/*.hpp'))
                   + glob.glob(os.path.join(REPO, 'programs/*.hpp')) + glob.glob(os.path.join(ROOT, 'g4stub/**/*'), recursive=True))
     hdrs = [h for h in hdrs if os.path.isfile(h)]
     if refd:
